@@ -19,7 +19,7 @@ def describe(tier):
                 "DCID length 0..20 x 4 suites x generations 0..3 x early secret present/absent (+ Retry) x 3 draws. "
                 "non-trivial: every structural case whose installed material was compared; distinct = (structure, draw)",
         "exhaustive": False,
-        "bounds": {"draws_per_structure": DRAWS, "dcid_len": "0..20", "generations": "0..3"},
+        "bounds": {"draws_per_structure": DRAWS if tier == "quick" else 12, "dcid_len": "0..20", "generations": "0..3"},
         "min_nontrivial": 500,
         "assumptions": [
             "exhaustive over structure (suite, version, lengths, generations); the data dimension is sampled (3 draws per "
@@ -41,11 +41,11 @@ def table_codes():
 
 def cases(tier, seed):
     for code in table_codes():
-        yield {"kind": "tls", "suite": code, "seed": seed}
+        yield {"kind": "tls", "suite": code, "seed": seed, "draws": DRAWS if tier == "quick" else 12}
     for suite in (0x1301, 0x1302, 0x1303, 0x1304):
         for dl in range(0, 21):
-            yield {"kind": "quic", "suite": suite, "odcid_len": dl, "seed": seed}
-        yield {"kind": "quic", "suite": suite, "odcid_len": 8, "retry": True, "seed": seed}
+            yield {"kind": "quic", "suite": suite, "odcid_len": dl, "seed": seed, "draws": DRAWS if tier == "quick" else 12}
+        yield {"kind": "quic", "suite": suite, "odcid_len": 8, "retry": True, "seed": seed, "draws": DRAWS if tier == "quick" else 12}
 
 
 def b(x):
@@ -68,7 +68,7 @@ def run_case(case):
             if not tls.suite_valid_for(sp, v):
                 continue
             for hs in ([True, False] if v == tls.TLS13 else [True]):
-                for draw in range(DRAWS):
+                for draw in range(case.get("draws", DRAWS)):
                     scn = {"version": v, "suite": code, "hs_secrets": hs, "history": [("c", 3), ("s", 3)]}
                     conn = scen.tls_conn(scn, seed, key=("draw", draw))
                     ends = cap.Ends(1)
@@ -112,7 +112,7 @@ def run_case(case):
         suite, dl = case["suite"], case["odcid_len"]
         hname, key_len, kind = quic.SUITES[suite]
         for early in (False, True):
-            for draw in range(DRAWS):
+            for draw in range(case.get("draws", DRAWS)):
                 opts = {"suite": suite, "odcid_len": dl, "script": [], "early_secret_in_log": early, "retry": bool(case.get("retry"))}
                 conn = scen.quic_conn(opts, seed, key=("draw", draw))
                 gens = 3
